@@ -12,6 +12,8 @@ line/column/source line agree with it, and str(e) renders.
 """
 from __future__ import annotations
 
+import contextlib
+import io
 import itertools
 import signal
 
@@ -208,8 +210,132 @@ def shard_grammars(m, items):
             signal.setitimer(signal.ITIMER_REAL, 0)
 
 
+# ------------------------------------------------------------------ (c) lexeme bodies
+
+TOKEN_ALPHA = ['\\', 'x', 'N', 'u', '{', '}', '0', 'z']
+PATTERN_LEX = ['(?a)', '(?u)', '(?i)', '(?x)', '(?L)', '(?P<n>', '(?P=n)', '(?#', '\\1', 'a', '(', ')', '\\', '"', "'", '*', '+', '?', '[', ']', '{', '}', '^', '|', '{2,1}']
+CONST_ALPHA = ['{', '}', '[', ']', ':', '1', 'x', ',', '(', ')', "'", ' ', '*', '.']
+
+
+def lexeme_grammars(tier):
+    """(where, grammar text, inputs) — each lexeme position of the grammar language filled with every short body."""
+    quick = tier == 'quick'
+    for n in range(1, (4 if quick else 5) + 1):
+        for t in itertools.product(TOKEN_ALPHA, repeat=n):
+            b = ''.join(t)
+            yield ('token', f"start: '{b}' ;\n", ['', 'z'])
+    for n in range(1, (2 if quick else 3) + 1):
+        for t in itertools.product(PATTERN_LEX, repeat=n):
+            b = ''.join(t)
+            if '/' in b or '\n' in b:
+                continue
+            yield ('pattern', f"start: /{b}/ ;\n", ['', 'a', 'aa'])
+            if n <= 2:
+                yield ('pattern-string-form', f"start: ?{b!r} ;\n", ['', 'a'])
+                yield ('whitespace-directive', f"@@whitespace :: /{b}/\n\nstart: 'a' 'a' ;\n", ['a a', 'aa'])
+                yield ('whitespace-directive-string', f"@@whitespace :: {b!r}\n\nstart: 'a' 'a' ;\n", ['a a'])
+                yield ('comments-directive', f"@@comments :: /{b}/\n\nstart: 'a' 'a' ;\n", ['a a'])
+                yield ('eol-comments-directive', f"@@eol_comments :: /{b}/\n\nstart: 'a' 'a' ;\n", ['a a'])
+    # quotes and backslashes in patterns (the printable form of a pattern is a Python raw string)
+    for n in range(1, (4 if quick else 6) + 1):
+        for t in itertools.product(['\\\\', '\\"', "\\'", '"', "'", 'a'], repeat=n):
+            yield ('pattern-quotes', f"start: /{''.join(t)}/ ;\n", ['', 'a'])
+    # literal look-alikes in constants
+    for n in range(1, (5 if quick else 6) + 1):
+        for t in itertools.product(['{', '}', '[]', ':', '1', ','], repeat=n):
+            yield ('constant-literal', f"start: x:'a' c:`{''.join(t)}` ;\n", ['a'])
+    # a rule that does not exist, in every place a rule can be named
+    for ctx in ["x", "'a' x", "[x]", "{x}", "{x}+", "(x)", "&x", "!x", "n:x", "n+:x", "@:x", "@+:x", "x.{'a'}", "x.{'a'}+", "x%{'a'}", "x%{'a'}+", "'a'.{x}", "'a'%{x}+",
+                "x<{'a'}+", "x>{'a'}+", "'a'<{x}+", "->x", ">x", "'a' | x", "() x", "('a' x)%{'a'}"]:
+        yield ('unknown-rule', f"start: {ctx} ;\n", ['', 'a', 'a a', 'a a a'])
+    yield ('unknown-rule', "start < x: 'a' ;\n", ['a'])
+    for n in range(1, (3 if quick else 4) + 1):
+        for t in itertools.product(CONST_ALPHA, repeat=n):
+            b = ''.join(t)
+            if '`' in b:
+                continue
+            yield ('constant', f"start: x:'a' c:`{b}` ;\n", ['a'])
+            if n <= 2:
+                yield ('alert', f"start: x:'a' ^`{b}` ;\n", ['a'])
+
+
+def shard_lexemes(m, items):
+    import tatsu
+    from tatsu.exceptions import FailedParse, GrammarError, ParseException
+    signal.signal(signal.SIGALRM, _alarm)
+    for where, text, inputs in items:
+        m.add('evaluations')
+        m.add('lexeme_grammars')
+        signal.setitimer(signal.ITIMER_REAL, 20.0)
+        model = None
+        try:
+            with contextlib.redirect_stderr(io.StringIO()):
+                impl.clear_compile_cache()
+                model = tatsu.compile(text)
+        except (FailedParse, GrammarError, ParseException):
+            pass
+        except Watchdog:
+            m.violation(f'hang/compile/{where}', grammar=text)
+        except RecursionError:
+            m.violation(f'recursion-error/compile/{where}', grammar=text)
+        except Exception as e:  # noqa
+            m.violation(f'foreign-exception/{type(e).__name__}/compile/{where}', grammar=text, error=str(e)[:150])
+        finally:
+            signal.setitimer(signal.ITIMER_REAL, 0)
+        if model is None:
+            continue
+        m.add('nontrivial')
+        for t in inputs:
+            signal.setitimer(signal.ITIMER_REAL, 5.0)
+            try:
+                with contextlib.redirect_stderr(io.StringIO()):
+                    model.parse(t)
+            except ParseException:
+                pass
+            except Watchdog:
+                m.violation(f'hang/parse/{where}', grammar=text, input=t)
+            except RecursionError:
+                m.violation(f'recursion-error/parse/{where}', grammar=text, input=t)
+            except Exception as e:  # noqa
+                m.violation(f'foreign-exception/{type(e).__name__}/parse/{where}', grammar=text, input=t, error=str(e)[:150])
+            finally:
+                signal.setitimer(signal.ITIMER_REAL, 0)
+            m.add('evaluations')
+
+
+def shard_const_input(m, items):
+    """A constant that interpolates input text: the parse must return (or fail) whatever the text says."""
+    from tatsu.exceptions import ParseException
+    signal.signal(signal.SIGALRM, _alarm)
+    g = "start: x:/.*/ c:`{x}` ;\n"
+    model = impl.compile_text(g)
+    for t in items:
+        m.add('evaluations')
+        signal.setitimer(signal.ITIMER_REAL, 1.5)
+        try:
+            with contextlib.redirect_stderr(io.StringIO()):
+                model.parse(t)
+            m.add('nontrivial')
+        except ParseException:
+            pass
+        except (Watchdog, MemoryError):
+            m.violation('hang/parse/constant-interpolating-input-text', grammar=g, input=t)
+        except RecursionError:
+            m.violation('recursion-error/parse/constant-interpolating-input-text', grammar=g, input=t)
+        except Exception as e:  # noqa
+            m.violation(f'foreign-exception/{type(e).__name__}/parse/constant-interpolating-input-text', grammar=g, input=t, error=str(e)[:150])
+        finally:
+            signal.setitimer(signal.ITIMER_REAL, 0)
+
+
 def run(rc):
     quick = rc.tier == 'quick'
+    ci = [''.join(t) for n in range(0, 4) for t in itertools.product(['{x}', 'a', '{', '}', '1+1', "'"], repeat=n)]
+    rc.pmap(shard_const_input, ci, chunk=4)
+    rc.coverage['constant_interpolating_input_cases'] = len(ci)
+    lex = list(dict.fromkeys((w, g, tuple(i)) for w, g, i in lexeme_grammars(rc.tier)))
+    rc.pmap(shard_lexemes, lex)
+    rc.coverage['lexeme_grammars'] = len(lex)
     maxlen = 3 if quick else 4
     ts = list(texts(maxlen))
     # longer, targeted inputs for the meta matchers
@@ -231,7 +357,9 @@ def run(rc):
     rc.coverage['grammar_edits'] = len(ed)
     rc.rule = (f'(a) {len(GRAMMARS) + len(WS_GRAMMARS)} grammars x all strings of length <= {maxlen} over {ALPHA!r} plus targeted numeric/boolean/unicode inputs x '
                '{str, Buffer} x parseinfo {off, on}; (b) complete single-edit neighbourhood (delete each char, insert each of '
-               f'{len(META)} metacharacters at each position, transpose neighbours) of {len(SEEDS)} seed grammars; non-trivial = accepted input / still-valid grammar')
+               f'{len(META)} metacharacters at each position, transpose neighbours) of {len(SEEDS)} seed grammars; (c) every short body in each lexeme position '
+               f'of the grammar language — token escapes, pattern bodies built from {len(PATTERN_LEX)} regex lexemes (also as ?"" form and as whitespace/comments/eol_comments directives), '
+               f'constant and alert bodies — {len(lex)} grammars, compiled and parsed; non-trivial = accepted input / still-valid grammar')
     rc.assumptions += ['"hangs" = exceeds a 5 s (parse) / 20 s (compile) watchdog; "recurses without bound" = RecursionError at the default limit',
                        'at a failure position equal to len(text) only validity of the reported line/column is required']
 
